@@ -67,7 +67,7 @@ func TestVerifRace(t *testing.T) {
 		_ = ca.SetReadDeadline(time.Now().Add(time.Millisecond))
 		_, _, _ = ca.ReadFrom(make([]byte, 50))
 	})
-	run(50, func(i int) { tbf.Set(TBFRate((1+i%8)*MBit), TBFMaxBurst(1000+100*i)) })
+	run(3000, func(i int) { tbf.Set(TBFRate((1+i%8)*MBit), TBFMaxBurst(1000+100*(i%40))) })
 	run(20, func(i int) { wan.AddChunkFilter(func(Chunk) bool { return true }) })
 	run(20, func(i int) {
 		c, err := a.ListenUDP("udp4", &net.UDPAddr{IP: net.ParseIP("192.168.0.2"), Port: 5000 + i})
